@@ -60,7 +60,10 @@ MANIFEST = {
             "C04_order_level_sections_partial (a level's value = fold of its base, the incoming section, its command line; any enclosing "
             "handle_subcommands), C04_sections_chain, C04_sections_last_writer, and the Lean witnesses of the two open findings of this class "
             "(C04_subsection_append_counterexample, C04_subdcf_section_counterexample).  Argument types now include Union[int, List[int]] and "
-            "Optional[List[int]] (a previous scalar, 0 included, is promoted by key+; model listOf).",
+            "Optional[List[int]] (a previous scalar, 0 included, is promoted by key+; model listOf).  The variable that names the subcommand "
+            "(PREFIX_SUBCOMMAND, per level) is a source of the model (envSection / envPending / finalLevelE: the named sub-parser's environment-only "
+            "parse_env as a section of the parent's environment layer; levels chosen by the variable alone have no parse of their own): "
+            "C04_order_level_env_named, C04_env_section_own; generated in three modes (names the path, names another subcommand, chooses the last levels alone).",
     "level_note": "Trusted: Lean kernel; axioms propext/Quot.sound/Classical.choice only; the correspondence harness and its generators; the C11 refinement "
                   "(setK/getK are __setitem__/__getitem__ when no dict value is on the key path). Outside: argparse tokenisation, glob/expanduser, the "
                   "loaders, type adaptation (values are generated in normal form), groups, links, positionals.  Subcommands: the model covers "
@@ -68,7 +71,7 @@ MANIFEST = {
                   "next level; the nesting cfg[name] = sub is the C11 algebra; assumption checked per case: a config does not hold key+ for an own key "
                   "and for a section key at once); setter calls on inner parsers are exercised by the correspondence only (mixed flags: the "
                   "documentation does not say what to expect); default config files of parsers with subcommands are replayed as the witness of an "
-                  "open finding only, the subcommand environment variable is not modelled (both: C17's subject, open findings there).",
+                  "open finding only (C17's subject, open findings there).",
 }
 
 FINDING_ENV_APPEND = "C04-envcfg-append"
@@ -1063,6 +1066,8 @@ def run_trees(ctx: Ctx, bench, tree_corpus, new):
             ctx.count()
             ctx.hist("tree_depth", len(case["path"]))
             ctx.hist("tree_method", case["method"] + ("/sections" if case.get("sections") else ""))
+            ctx.hist("tree_subcommand_variable", "none" if not case.get("env_sub") else "chooses the last %d level(s)" % (len(case["path"]) - case["argv_depth"])
+                     if "argv_depth" in case else "set, command line names the path")
             ctx.hist("tree_setters_before", min(3, sum(1 for st in hist[:i] if st["op"] == "set")))
             ctx.hist("tree_flags_along_path", "uniform" if len(set(flags)) == 1 else "mixed")
             ctx.hist("tree_call", "defaults=%s env=%s" % (case.get("defaults", True), case.get("env_arg")))
